@@ -397,6 +397,8 @@ def check_static_locals(ctx):
 
 
 def check(ctx):
+    from . import c09 as _c09
+    _c09.check_signal_after_change(ctx)   # a condition variable is signalled while its mutex is held (the waiter may free it right after)
     check_static_locals(ctx)
     la = check_lockset(ctx)
     check_contracts(ctx, la)
@@ -405,4 +407,5 @@ def check(ctx):
     check_dbiter_confined(ctx)
     from . import c13, c09
     c09.check_manual_cancel(ctx)  # a stack object published to the background thread outlives the background's use of it
-    c13.check_cache_pins(ctx)     # objects reached through a cache handle are not touched after the handle is released
+    c13.check_cache_pins(ctx)
+    c13.check_version_pointer_lifetime(ctx)   # a version is read only under the mutex or through a reference     # objects reached through a cache handle are not touched after the handle is released
